@@ -31,7 +31,7 @@ def run(ctx, rep):
     G.check_side_conditions(rep, "C06-R1", res, where)
     G.model_limits(rep, "C06-R1", res, where, "rfc<=impl")
     divs = GM.divergences(res)
-    for cmp_ in res["engine"]["compare"]:
+    for cmp_ in [c for c in res["engine"]["compare"] if not c["id"].startswith("np:")]:
         n = sum(1 for d in cmp_["divergences"] if d["dir"] == "rfc-only")
         rep.ok("C06-R1", "compared:%s" % cmp_["id"], where, "%d x %d states, %d product states explored exhaustively, %d RFC-only divergence class(es)"
                % (cmp_["impl_states"], cmp_["rfc_states"], cmp_["product_states"], n))
@@ -41,7 +41,7 @@ def run(ctx, rep):
         rep.bad("C06-R1", "div|%s|%s|%s" % k, where,
                 "valid query rejected: `%s` (at `%s`, rule %s, symbol class %s)%s" % (
                     d["witness"], d["where"], k[1], k[2], (": " + G.hint(k)) if G.hint(k) else ""))
-    rep.samples.extend({"rule": "C06-R1", "comparison": c["id"], "impl_states": c["impl_states"], "rfc_states": c["rfc_states"]} for c in res["engine"]["compare"])
+    rep.samples.extend({"rule": "C06-R1", "comparison": c["id"], "impl_states": c["impl_states"], "rfc_states": c["rfc_states"]} for c in res["engine"]["compare"] if not c["id"].startswith("np:"))
     rep.extra["filters_modelled"] = res["applied_filters"]
     # R2
     rep.rule("C06-R2", "PEG ordered choice does not lose sentences: prefix-comparable alternatives only in the reasoned table's order", floor=4)
